@@ -68,8 +68,13 @@ EDIT_KINDS = ["add_node", "delete_node", "add_edge", "delete_edge", "swap", "upd
 _WORDS: dict = {}
 
 
+def sys_len(tier: str) -> int:
+    return 8 if tier == "thorough" else 6
+
+
 def systematic_words(max_len: int = 6) -> list:
-    """All words over {E,U,R} of length 1..max_len (3+9+...+729 = 1092 for 6)."""
+    """All words over {E,U,R} of length 1..max_len (1092 for 6, 9840 for 8), shortest
+    first, so the quick tier's words are a prefix of the thorough tier's."""
     import itertools
 
     if max_len in _WORDS:
@@ -96,7 +101,7 @@ def make_case(prop: str, seed: int, idx: int, tier: str) -> dict:
         # stream; an edit that the state refuses is retried with up to 3 other edits so the
         # executed word equals the intended one in most runs (the executed word is what
         # the evidence counts)
-        word = systematic_words()[idx - SYSTEMATIC_BASE]
+        word = systematic_words(sys_len(tier))[idx - SYSTEMATIC_BASE]
         cfg["f1"] = 0.0
         ops = []
         for ch in word:
